@@ -177,6 +177,21 @@ func (g *tagger) pick2(name string, nAcc, nRej int) int {
 
 func (g *tagger) tag(s string) { g.tags = append(g.tags, s) }
 
+// note records an ordinary (non-boundary) choice that still belongs to the abstract shape of the case; notes start with "~"
+// and do not count towards non-triviality.
+func (g *tagger) note(s string) { g.tags = append(g.tags, "~"+s) }
+
+// boundaryCount is the number of real boundary tags in a tag list.
+func boundaryCount(tags []string) int {
+	n := 0
+	for _, t := range tags {
+		if !strings.HasPrefix(t, "~") {
+			n++
+		}
+	}
+	return n
+}
+
 func (g *tagger) sortedTags() []string {
 	s := append([]string{}, g.tags...)
 	sort.Strings(s)
